@@ -1,6 +1,9 @@
 Agg/AntiUnify.vo Agg/AntiUnify.glob Agg/AntiUnify.v.beautified Agg/AntiUnify.required_vo: Agg/AntiUnify.v Ir/Syntax.vo Ir/Fold.vo Agg/Instance.vo
 Agg/AntiUnify.vio: Agg/AntiUnify.v Ir/Syntax.vio Ir/Fold.vio Agg/Instance.vio
 Agg/AntiUnify.vos Agg/AntiUnify.vok Agg/AntiUnify.required_vos: Agg/AntiUnify.v Ir/Syntax.vos Ir/Fold.vos Agg/Instance.vos
+Agg/Check.vo Agg/Check.glob Agg/Check.v.beautified Agg/Check.required_vo: Agg/Check.v Ir/Syntax.vo Ir/Fold.vo Agg/Instance.vo Agg/AntiUnify.vo Agg/MayInv.vo Agg/Solution.vo
+Agg/Check.vio: Agg/Check.v Ir/Syntax.vio Ir/Fold.vio Agg/Instance.vio Agg/AntiUnify.vio Agg/MayInv.vio Agg/Solution.vio
+Agg/Check.vos Agg/Check.vok Agg/Check.required_vos: Agg/Check.v Ir/Syntax.vos Ir/Fold.vos Agg/Instance.vos Agg/AntiUnify.vos Agg/MayInv.vos Agg/Solution.vos
 Agg/Instance.vo Agg/Instance.glob Agg/Instance.v.beautified Agg/Instance.required_vo: Agg/Instance.v Ir/Syntax.vo Ir/Fold.vo
 Agg/Instance.vio: Agg/Instance.v Ir/Syntax.vio Ir/Fold.vio
 Agg/Instance.vos Agg/Instance.vok Agg/Instance.required_vos: Agg/Instance.v Ir/Syntax.vos Ir/Fold.vos
@@ -43,6 +46,9 @@ Infer/Exec.vos Infer/Exec.vok Infer/Exec.required_vos: Infer/Exec.v Ir/Syntax.vo
 Infer/Script.vo Infer/Script.glob Infer/Script.v.beautified Infer/Script.required_vo: Infer/Script.v Ir/Syntax.vo Ir/Fold.vo Infer/Table.vo Infer/Unify.vo
 Infer/Script.vio: Infer/Script.v Ir/Syntax.vio Ir/Fold.vio Infer/Table.vio Infer/Unify.vio
 Infer/Script.vos Infer/Script.vok Infer/Script.required_vos: Infer/Script.v Ir/Syntax.vos Ir/Fold.vos Infer/Table.vos Infer/Unify.vos
+Infer/Sym.vo Infer/Sym.glob Infer/Sym.v.beautified Infer/Sym.required_vo: Infer/Sym.v Ir/Syntax.vo Ir/Fold.vo Infer/Table.vo Infer/Unify.vo
+Infer/Sym.vio: Infer/Sym.v Ir/Syntax.vio Ir/Fold.vio Infer/Table.vio Infer/Unify.vio
+Infer/Sym.vos Infer/Sym.vok Infer/Sym.required_vos: Infer/Sym.v Ir/Syntax.vos Ir/Fold.vos Infer/Table.vos Infer/Unify.vos
 Infer/Table.vo Infer/Table.glob Infer/Table.v.beautified Infer/Table.required_vo: Infer/Table.v Ir/Syntax.vo
 Infer/Table.vio: Infer/Table.v Ir/Syntax.vio
 Infer/Table.vos Infer/Table.vok Infer/Table.required_vos: Infer/Table.v Ir/Syntax.vos
@@ -106,6 +112,9 @@ Props/C05.vos Props/C05.vok Props/C05.required_vos: Props/C05.v Rules/Builtin.vo
 Props/C06.vo Props/C06.glob Props/C06.v.beautified Props/C06.required_vo: Props/C06.v Rules/EnvElab.vo
 Props/C06.vio: Props/C06.v Rules/EnvElab.vio
 Props/C06.vos Props/C06.vok Props/C06.required_vos: Props/C06.v Rules/EnvElab.vos
+Props/C07.vo Props/C07.glob Props/C07.v.beautified Props/C07.required_vo: Props/C07.v Rules/Assoc.vo
+Props/C07.vio: Props/C07.v Rules/Assoc.vio
+Props/C07.vos Props/C07.vok Props/C07.required_vos: Props/C07.v Rules/Assoc.vos
 Props/C08.vo Props/C08.glob Props/C08.v.beautified Props/C08.required_vo: Props/C08.v Rules/Builtin.vo
 Props/C08.vio: Props/C08.v Rules/Builtin.vio
 Props/C08.vos Props/C08.vok Props/C08.required_vos: Props/C08.v Rules/Builtin.vos
@@ -121,9 +130,9 @@ Props/C12.vos Props/C12.vok Props/C12.required_vos: Props/C12.v Engine/RecEngine
 Props/C13.vo Props/C13.glob Props/C13.v.beautified Props/C13.required_vo: Props/C13.v Logic/Perm.vo
 Props/C13.vio: Props/C13.v Logic/Perm.vio
 Props/C13.vos Props/C13.vok Props/C13.required_vos: Props/C13.v Logic/Perm.vos
-Props/C15.vo Props/C15.glob Props/C15.v.beautified Props/C15.required_vo: Props/C15.v Ir/Syntax.vo Infer/Table.vo Infer/Unify.vo
-Props/C15.vio: Props/C15.v Ir/Syntax.vio Infer/Table.vio Infer/Unify.vio
-Props/C15.vos Props/C15.vok Props/C15.required_vos: Props/C15.v Ir/Syntax.vos Infer/Table.vos Infer/Unify.vos
+Props/C15.vo Props/C15.glob Props/C15.v.beautified Props/C15.required_vo: Props/C15.v Ir/Syntax.vo Infer/Table.vo Infer/Unify.vo Infer/Sym.vo
+Props/C15.vio: Props/C15.v Ir/Syntax.vio Infer/Table.vio Infer/Unify.vio Infer/Sym.vio
+Props/C15.vos Props/C15.vok Props/C15.required_vos: Props/C15.v Ir/Syntax.vos Infer/Table.vos Infer/Unify.vos Infer/Sym.vos
 Props/C16.vo Props/C16.glob Props/C16.v.beautified Props/C16.required_vo: Props/C16.v Ir/Syntax.vo Ir/Fold.vo Infer/Canon.vo Infer/UCanon.vo
 Props/C16.vio: Props/C16.v Ir/Syntax.vio Ir/Fold.vio Infer/Canon.vio Infer/UCanon.vio
 Props/C16.vos Props/C16.vok Props/C16.required_vos: Props/C16.v Ir/Syntax.vos Ir/Fold.vos Infer/Canon.vos Infer/UCanon.vos
@@ -154,9 +163,12 @@ Props/C27.vos Props/C27.vok Props/C27.required_vos: Props/C27.v Mem/InPlace.vos
 Props/C28.vo Props/C28.glob Props/C28.v.beautified Props/C28.required_vo: Props/C28.v Ir/Syntax.vo Ir/Fold.vo Infer/Canon.vo Infer/Answer.vo
 Props/C28.vio: Props/C28.v Ir/Syntax.vio Ir/Fold.vio Infer/Canon.vio Infer/Answer.vio
 Props/C28.vos Props/C28.vok Props/C28.required_vos: Props/C28.v Ir/Syntax.vos Ir/Fold.vos Infer/Canon.vos Infer/Answer.vos
-Props/C29.vo Props/C29.glob Props/C29.v.beautified Props/C29.required_vo: Props/C29.v Ir/Syntax.vo Infer/Table.vo Infer/Unify.vo Infer/Variance.vo
-Props/C29.vio: Props/C29.v Ir/Syntax.vio Infer/Table.vio Infer/Unify.vio Infer/Variance.vio
-Props/C29.vos Props/C29.vok Props/C29.required_vos: Props/C29.v Ir/Syntax.vos Infer/Table.vos Infer/Unify.vos Infer/Variance.vos
+Props/C29.vo Props/C29.glob Props/C29.v.beautified Props/C29.required_vo: Props/C29.v Ir/Syntax.vo Infer/Table.vo Infer/Unify.vo Infer/Variance.vo Infer/Closed.vo
+Props/C29.vio: Props/C29.v Ir/Syntax.vio Infer/Table.vio Infer/Unify.vio Infer/Variance.vio Infer/Closed.vio
+Props/C29.vos Props/C29.vok Props/C29.required_vos: Props/C29.v Ir/Syntax.vos Infer/Table.vos Infer/Unify.vos Infer/Variance.vos Infer/Closed.vos
+Rules/Assoc.vo Rules/Assoc.glob Rules/Assoc.v.beautified Rules/Assoc.required_vo: Rules/Assoc.v Logic/Contract.vo Agg/Solution.vo
+Rules/Assoc.vio: Rules/Assoc.v Logic/Contract.vio Agg/Solution.vio
+Rules/Assoc.vos Rules/Assoc.vok Rules/Assoc.required_vos: Rules/Assoc.v Logic/Contract.vos Agg/Solution.vos
 Rules/Auto.vo Rules/Auto.glob Rules/Auto.v.beautified Rules/Auto.required_vo: Rules/Auto.v Rules/Types.vo
 Rules/Auto.vio: Rules/Auto.v Rules/Types.vio
 Rules/Auto.vos Rules/Auto.vok Rules/Auto.required_vos: Rules/Auto.v Rules/Types.vos
@@ -172,6 +184,9 @@ Rules/Orphan.vos Rules/Orphan.vok Rules/Orphan.required_vos: Rules/Orphan.v
 Rules/Types.vo Rules/Types.glob Rules/Types.v.beautified Rules/Types.required_vo: Rules/Types.v Logic/Program.vo Logic/Sem.vo Logic/Ground.vo
 Rules/Types.vio: Rules/Types.v Logic/Program.vio Logic/Sem.vio Logic/Ground.vio
 Rules/Types.vos Rules/Types.vok Rules/Types.required_vos: Rules/Types.v Logic/Program.vos Logic/Sem.vos Logic/Ground.vos
+Rules/Wf.vo Rules/Wf.glob Rules/Wf.v.beautified Rules/Wf.required_vo: Rules/Wf.v Rules/EnvElab.vo
+Rules/Wf.vio: Rules/Wf.v Rules/EnvElab.vio
+Rules/Wf.vos Rules/Wf.vok Rules/Wf.required_vos: Rules/Wf.v Rules/EnvElab.vos
 Text/LowerFail.vo Text/LowerFail.glob Text/LowerFail.v.beautified Text/LowerFail.required_vo: Text/LowerFail.v 
 Text/LowerFail.vio: Text/LowerFail.v 
 Text/LowerFail.vos Text/LowerFail.vok Text/LowerFail.required_vos: Text/LowerFail.v 
@@ -187,6 +202,9 @@ Text/Parse.vos Text/Parse.vok Text/Parse.required_vos: Text/Parse.v Text/Syntax2
 Text/Print.vo Text/Print.glob Text/Print.v.beautified Text/Print.required_vo: Text/Print.v Text/Syntax22.vo
 Text/Print.vio: Text/Print.v Text/Syntax22.vio
 Text/Print.vos Text/Print.vok Text/Print.required_vos: Text/Print.v Text/Syntax22.vos
+Text/RoundTripAst.vo Text/RoundTripAst.glob Text/RoundTripAst.v.beautified Text/RoundTripAst.required_vo: Text/RoundTripAst.v Text/Syntax22.vo Text/TokEq.vo Text/Print.vo Text/Parse.vo
+Text/RoundTripAst.vio: Text/RoundTripAst.v Text/Syntax22.vio Text/TokEq.vio Text/Print.vio Text/Parse.vio
+Text/RoundTripAst.vos Text/RoundTripAst.vok Text/RoundTripAst.required_vos: Text/RoundTripAst.v Text/Syntax22.vos Text/TokEq.vos Text/Print.vos Text/Parse.vos
 Text/Syntax22.vo Text/Syntax22.glob Text/Syntax22.v.beautified Text/Syntax22.required_vo: Text/Syntax22.v 
 Text/Syntax22.vio: Text/Syntax22.v 
 Text/Syntax22.vos Text/Syntax22.vok Text/Syntax22.required_vos: Text/Syntax22.v 
